@@ -5,6 +5,7 @@ import copy
 import functools
 import operator
 import os
+import re as _re
 import z3
 
 from .core import (Sym, OutsideSubset, EngineError, PyRaise, ExcVal, py_raise, binop, unop, compare, wrap, to_z3,
@@ -99,7 +100,7 @@ def contains(it, container, x):
             return wrap(z3.Contains(container.e, to_z3(x)))
         py_raise(TypeError, "'in <string>' requires string as left operand")
     if isinstance(container, Obj) and container.has_field('__contains__'):
-        return it.call_value(container.__contains__, [x], {})
+        return it.call_value(container.field('__contains__'), [x], {})
     raise OutsideSubset("`in` on %s" % type(container).__name__)
 
 
@@ -155,7 +156,7 @@ def getitem(it, o, k):
     if isinstance(o, Sym) and o.kind == 'str':
         raise OutsideSubset("subscript of a symbolic string")
     if isinstance(o, Obj) and o.has_field('__getitem__'):
-        return it.call_value(o.__getitem__, [k], {})
+        return it.call_value(o.field('__getitem__'), [k], {})
     if o is None:
         py_raise(TypeError, "'NoneType' object is not subscriptable")
     if isinstance(o, (Sym, ModelValue, Obj, Extern)):
@@ -198,7 +199,7 @@ def setitem(it, o, k, v):
         o.m = o.m.store(k, v)
         return
     if isinstance(o, Obj) and o.has_field('__setitem__'):
-        it.call_value(o.__setitem__, [k, v], {})
+        it.call_value(o.field('__setitem__'), [k, v], {})
         return
     raise OutsideSubset("item store on %s" % type(o).__name__)
 
@@ -230,6 +231,10 @@ def delitem(it, o, k):
 
 
 # ------------------------------------------------------------------------------ methods
+def _is_repo_deep_copy(f):
+    return getattr(f, '__name__', '') == 'deep_copy' and (getattr(f, '__module__', '') or '').startswith('experiment.')
+
+
 def call_method(it, obj, name, args, kwargs):
     c = it.ctx
     obj = unflex(obj)
@@ -467,7 +472,7 @@ def b_len(it, v):
         py_raise(TypeError, "object has no len()")
     if isinstance(v, (ModelValue, MapBox, Obj)):
         if isinstance(v, Obj) and v.has_field('__len__'):
-            return it.call_value(v.__len__, [], {})
+            return it.call_value(v.field('__len__'), [], {})
         raise OutsideSubset("len(%s)" % type(v).__name__)
     return _native(len, v)
 
@@ -592,16 +597,20 @@ def b_round(it, v, nd=None):
         if isinstance(nd, Sym):
             raise OutsideSubset("round with symbolic ndigits")
         return _native(round, v) if nd is None else _native(round, v, nd)
-    if nd is not None:
-        raise OutsideSubset("round(x, ndigits) symbolic")
+    if isinstance(nd, Sym) or (nd is not None and not isinstance(nd, int)):
+        raise OutsideSubset("round(x, ndigits) with symbolic ndigits")
     if v.kind == 'int':
         return v
     if v.kind != 'real':
         py_raise(TypeError, "round()")
-    f = z3.ToInt(v.e)
-    frac = v.e - z3.ToReal(f)
+    x = v.e if nd is None else v.e * (10 ** nd)
+    f = z3.ToInt(x)
+    frac = x - z3.ToReal(f)
     half = z3.RealVal('1/2')
-    return wrap(z3.If(frac < half, f, z3.If(frac > half, f + 1, z3.If(f % 2 == 0, f, f + 1))))   # half to even
+    r = z3.If(frac < half, f, z3.If(frac > half, f + 1, z3.If(f % 2 == 0, f, f + 1)))   # half to even
+    if nd is None:
+        return wrap(r)
+    return wrap(z3.ToReal(r) / (10 ** nd))       # floats-are-reals reading of round(x, nd)
 
 
 def b_range(it, *args):
@@ -803,13 +812,15 @@ _PURE_MODULE_PREFIXES = ('posixpath', 'os.path', 're', 'copy', 'pprint', 'json',
 
 
 def is_pure_callable(f):
+    if getattr(f, '__name__', '') == 'deep_copy' and (getattr(f, '__module__', '') or '').startswith('experiment.'):
+        return False
     mod = getattr(f, '__module__', None) or ''
     if mod in ('posixpath', 'genericpath', 're', 'math', 'operator', 'json', 'pprint', 'textwrap'):
         return True
     if isinstance(f, type) and f in (str, int, float, bool, list, dict, tuple, set, frozenset, bytes):
         return True
     if isinstance(f, type(len)) and getattr(f, '__self__', None) is not None and \
-            isinstance(f.__self__, (str, tuple, frozenset, int, float, bytes)):
+            isinstance(f.__self__, (str, tuple, frozenset, int, float, bytes, _re.Pattern, _re.Match)):
         return True
     return False
 
